@@ -33,7 +33,14 @@ def graph_run(prop, tier, seed, module, mc_module, cfgs, required_tags, level_no
     cfg_summ = []
     for cfg in cfgs[tier]:
         w = workers or (4 if tier == "quick" else 8)
-        r = vlib.run_tlc(mc_module, cfg, wd, workers=w, timeout=(600 if tier == "quick" else 3000))
+        if cfg.endswith("_walk.cfg"):
+            # a larger model than TLC can enumerate: random behaviours (TLC simulation mode); the transitions seen form a graph
+            # connected to the initial state, which is replayed like the exhaustive ones
+            num, depth = (150, 14) if tier == "quick" else (1500, 16)
+            r = vlib.run_tlc(mc_module, cfg, wd, workers=1, timeout=(600 if tier == "quick" else 3000), simulate=f"num={num}",
+                             extra=("-depth", str(depth), "-seed", str(1000 + seed)))
+        else:
+            r = vlib.run_tlc(mc_module, cfg, wd, workers=w, timeout=(600 if tier == "quick" else 3000))
         graph = os.path.join(wd, cfg.replace(".cfg", "") + ".graph.ndjson")
         nstates, nedges = vlib.build_graph(r["edges_raw"], graph)
         os.remove(r["edges_raw"])
@@ -226,19 +233,19 @@ PROPS = {
                              "DcpsStatusCondition driven through the cfg(dust_dds_verif) re-export with real notification channels"),
                    simprop(scenarios.c32, ["C32"], {"waits": 20, "waitwoken": 10}, spec="Trace_Worker", mc=None,
                            norm=tracenorm.normalise_worker)),
-    "C18": rc("C18", {"quick": C("C18", "C18b", "C18c", "C18d"), "thorough": C("C18", "C18b", "C18c", "C18d")},
+    "C18": rc("C18", {"quick": C("C18", "C18b", "C18c", "C18d", "C18_walk"), "thorough": C("C18", "C18b", "C18c", "C18d", "C18_walk")},
               ["history:keep-last-replaces-oldest"]),
-    "C19": rc("C19", {"quick": C("C19", "C19b", "C19c"), "thorough": C("C19", "C19b", "C19c")}, ["limits:rejected"]),
+    "C19": rc("C19", {"quick": C("C19", "C19b", "C19c", "C19_walk"), "thorough": C("C19", "C19b", "C19c", "C19_walk")}, ["limits:rejected"]),
     "C20": rc("C20", {"quick": C("C20", "C20b"), "thorough": C("C20", "C20b")}, ["access", "access:specific-instance", "access:unknown-instance"]),
-    "C21": rc("C21", {"quick": C("C21", "C21b", "C21c"), "thorough": C("C21", "C21b", "C21c")}, ["order:inserted-before-later-timestamp"]),
-    "C22": rc("C22", {"quick": C("C22", "C22b", "C22c"), "thorough": C("C22", "C22b", "C22c")},
+    "C21": rc("C21", {"quick": C("C21", "C21b", "C21c", "C21_walk"), "thorough": C("C21", "C21b", "C21c", "C21_walk")}, ["order:inserted-before-later-timestamp"]),
+    "C22": rc("C22", {"quick": C("C22", "C22b", "C22c", "C22_walk"), "thorough": C("C22", "C22b", "C22c", "C22_walk")},
               ["state:rebirth", "state:unregister-while-other-writers-remain"]),
     "C23": rc("C23", {"quick": C("C23"), "thorough": C("C23")},
               ["nextinstance", "nextinstance:skips-instance-without-matching-samples", "nextinstance:none"]),
-    "C24": rc("C24", {"quick": C("C24", "C24b"), "thorough": C("C24", "C24b")},
+    "C24": rc("C24", {"quick": C("C24", "C24b", "C24_walk"), "thorough": C("C24", "C24b", "C24_walk")},
               ["ownership:weaker-writer-ignored", "ownership:stronger-writer-takes-over",
                "ownership:owner-no-longer-matched"]),
-    "C25": rc("C25", {"quick": C("C25", "C25b"), "thorough": C("C25", "C25b")},
+    "C25": rc("C25", {"quick": C("C25", "C25b", "C25_walk"), "thorough": C("C25", "C25b", "C25_walk")},
               ["timefilter:closer-than-minimum-separation"]),
 }
 
